@@ -109,6 +109,11 @@ Print Assumptions pml_step_equiv_nested_history_refuted.
 Theorem pml_step_equiv_cond_parentheses_refuted : exists t fp ff, ~ behaviour_preserved pml_as_written t 7 13 fp ff.
 Proof. exact cond_top_level_or_refuted. Qed.
 Print Assumptions pml_step_equiv_cond_parentheses_refuted.
+(* against the fast engine only (Fast.v is what behaviour_preserved compares with); the default large engine
+   behaves as the emitted model on this chart, and both leave the configuration {scxml,s1,s3,s4} without s2 *)
+Theorem pml_step_equiv_restored_ancestors_refuted : exists t fp ff, ~ behaviour_preserved pml_guarded_only t 7 13 fp ff.
+Proof. exact restored_without_ancestors_refuted. Qed.
+Print Assumptions pml_step_equiv_restored_ancestors_refuted.
 Theorem pml_step_equiv_no_transitions_refuted : exists t fp ff, ~ behaviour_prefix pml_as_written t 7 13 fp ff.
 Proof. exact no_transitions_refuted. Qed.
 Print Assumptions pml_step_equiv_no_transitions_refuted.
